@@ -62,6 +62,7 @@ def Prog.zrShifts (p : Prog) : List (Nat × Bool) :=
 
 inductive PErr where
   | panic (msg : String)
+  | overflow (msg : String)   -- arithmetic overflow panic of the overflow-checked build
 deriving Repr, DecidableEq
 
 abbrev PRes (α : Type) := Except PErr α
@@ -97,7 +98,7 @@ def readShift (c : Char) : Bool := c == 'R'
 /-- `State::from(state as u8 - 65)` with overflow checks on. -/
 def readState (c : Char) : PRes Nat :=
   let b := c.toNat % 256
-  if b < 65 then .error (.panic "read_state") else .ok (b - 65)
+  if b < 65 then .error (.overflow "read_state") else .ok (b - 65)
 
 def readInstr (s : List Char) : PRes (Option Instr) :=
   if s.contains '.' then .ok none else
@@ -145,7 +146,7 @@ def Prog.fromStr (s : String) : PRes Prog := Prog.fromChars s.toList
 /-- `show_state(Some(s))`: `(s as u8 + 65) as char`. -/
 def showState (s : Nat) : PRes Char :=
   let b := s % 256
-  if b + 65 ≥ 256 then .error (.panic "show_state") else .ok (Char.ofNat (b + 65))
+  if b + 65 ≥ 256 then .error (.overflow "show_state") else .ok (Char.ofNat (b + 65))
 
 def natDigits (n : Nat) : List Char := (toString n).toList
 
@@ -192,6 +193,7 @@ def Prog.showChars (p : Prog) (params : Option (Nat × Nat)) : PRes (List Char) 
 def Prog.show (p : Prog) (params : Option (Nat × Nat)) : String :=
   match p.showChars params with
   | .ok cs => String.ofList cs
-  | .error _ => "PANIC"
+  | .error (.panic _) => "PANIC"
+  | .error (.overflow _) => "limit:overflow"
 
 end BB
